@@ -217,13 +217,47 @@ static void boundary (void)
     VProg p;
     int d, s;
     static const char *cp[] = { "", "copyb", "copyw", "", "copyl", "", "", "", "copyq" };
-    if (aligns[i] < sz) continue;
+    /* alignments below the element size are legal declarations too ("align 1": the array may start anywhere) */
     memset (&p, 0, sizeof (p));
     d = vprog_addvar (&p, VK_D, sz); p.v[d].align = aligns[i];
-    s = vprog_addvar (&p, VK_S, sz); p.v[s].align = aligns[i] > 1 ? aligns[i] / 2 >= sz ? aligns[i] / 2 : aligns[i] : aligns[i];
+    s = vprog_addvar (&p, VK_S, sz); p.v[s].align = aligns[i] > 1 ? aligns[i] / 2 : aligns[i];
     vprog_addinsn (&p, cp[sz], 0, 2, d, s, -1, -1);
     snprintf (p.name, sizeof (p.name), "balign%d_%d", sz, aligns[i]);
     on_prog (&p, NULL);
+    /* the same program built the other two ways a declared alignment can get into a program */
+    {
+      long idx = g_idx++;
+      if (!(idx < g_start || (idx % nshards) != shard)) {
+        OrcProgram *q = orc_program_new ();
+        char text[200];
+        int dv, sv;
+        orc_program_set_name (q, p.name);
+        dv = orc_program_add_destination (q, sz, "d1");
+        sv = orc_program_add_source (q, sz, "s1");
+        orc_program_set_var_alignment (q, dv, p.v[d].align);
+        orc_program_set_var_alignment (q, sv, p.v[s].align);
+        orc_program_append_2 (q, cp[sz], 0, dv, sv, -1, -1);
+        snprintf (text, sizeof (text), "%s built with set_var_alignment (dest %d, source %d)", p.name, p.v[d].align, p.v[s].align);
+        check_program (q, text, idx);
+        orc_program_free (q);
+      }
+    }
+    {
+      long idx = g_idx++;
+      if (!(idx < g_start || (idx % nshards) != shard)) {
+        char text[300];
+        OrcProgram **progs = NULL;
+        int np;
+        snprintf (text, sizeof (text), ".function %s\n.dest %d d1 align %d\n.source %d s1 align %d\n%s d1, s1\n", p.name, sz, p.v[d].align, sz, p.v[s].align, cp[sz]);
+        np = orc_parse (text, &progs);
+        if (np == 1 && progs[0]) {
+          if (progs[0]->vars[ORC_VAR_D1].alignment != p.v[d].align) viol ("structure", "parsed-alignment", "parser did not keep the declared alignment", text);
+          check_program (progs[0], text, idx);
+          orc_program_free (progs[0]);
+        } else viol ("structure", "parsed-alignment", "alignment program does not parse", text);
+        free (progs);
+      }
+    }
   }
   /* every variable slot used; every parameter class; 1, 99 and 100 instructions */
   {
